@@ -111,3 +111,47 @@ def txt_stmt(s):
         else:
             return None
     return ";".join(parts)
+
+
+def forwarding_peers(facts, fams=None):
+    """typed overload families: `R f(T x) { return f(&x, sizeof x); }`.  A one-statement forwarder must forward to an overload of
+    its OWN name; forwarding to the head of a different family (get_lower_bound(int64_t) -> get_upper_bound(const void*, size_t))
+    although an overload of its own name with that arity exists is a copy-paste of the wrong peer."""
+    from astu import stmts_of, strip_all
+    import collections
+    fns = functions_by(facts)
+    byrec = collections.defaultdict(lambda: collections.defaultdict(list))
+    single = {}
+    for pat, fn in fns.items():
+        if not fn.get("rect") or fn["kind"] != "method" or fn.get("body") is None:
+            continue
+        byrec[fn["rect"]][fn["name"]].append(fn)
+        st = stmts_of(fn["body"])
+        if len(st) != 1 or st[0].get("k") not in ("Return", "Expr"):
+            continue
+        e = strip_all(st[0].get("e") or {})
+        if e.get("k") == "Call" and e.get("member") and strip_all(e.get("obj") or {}).get("k") == "This" and (e.get("crec") or "") == fn["rect"].split("<")[0]:
+            single[pat] = (fn, e)
+    heads = collections.defaultdict(set)  # rect -> names that are forwarded to by same-named overloads
+    for pat, (fn, e) in single.items():
+        if e["cname"] == fn["name"]:
+            heads[fn["rect"]].add(fn["name"])
+    out = []
+    n = 0
+    for pat, (fn, e) in sorted(single.items()):
+        if fams and not any(pat.startswith(f) for f in fams):
+            continue
+        if fn["name"] not in heads[fn["rect"]] and e["cname"] not in heads[fn["rect"]]:
+            continue
+        n += 1
+        key = "%s(%s):forwards-to-own-family" % (short(fn["patq"]), ",".join(p["t"] for p in fn["params"]))
+        if e["cname"] == fn["name"]:
+            out.append(ob("lint.forwarding-peer", key, e["loc"], "discharged", "forwards to %s(%d args)" % (e["cname"], len(e.get("args", []))), fn["qname"]))
+            continue
+        own = [g for g in byrec[fn["rect"]][fn["name"]] if g is not fn and len(g["params"]) == len(e.get("args", []))]
+        if e["cname"] in heads[fn["rect"]] and own:
+            out.append(ob("lint.forwarding-peer", key, e["loc"], "violated", "%s(%s) forwards to %s(...) although %s has its own overload with %d parameter(s): wrong peer - this overload answers a different question than its siblings" % (fn["name"], ",".join(p["t"] for p in fn["params"]), e["cname"], fn["name"], len(e.get("args", []))), fn["qname"]))
+        else:
+            out.append(ob("lint.forwarding-peer", key, e["loc"], "info", "forwards to helper %s" % e["cname"], fn["qname"]))
+    out.append(ob("lint.forwarding-peer", "all:forwarders-scanned", "", "discharged", "%d one-statement forwarders in overload families scanned" % n, ""))
+    return out
